@@ -529,7 +529,7 @@ func TestVerifC04(t *testing.T) {
 	r := vx.Start("C04", "routing")
 	defer r.Finish()
 	c04Setup()
-	r.Rule("configurations generated from the directive grammar (source / source_in / default_source, destination / destination_in / default_destination with 1-2 clauses from 8 rule sets incl. case, NFD, A-label and upper-case A-label spellings and duplicates, reject with 2 codes, deliver_to with 1-2 targets, global / source / destination modify with 1->1 and 1->2 recipient rewriting, reroute with a nested pipeline), each loaded by the real msgpipeline.New and driven with every envelope of 10 senders x 11 recipients (spelling variants, null sender, postmaster); ill-formed shapes (handling directive next to rules, missing default, reject+deliver_to, empty block) must be refused at load; oracle: independent interpreter of docs/reference/smtp-pipeline.md (tables, then full address, then domain, then default; first declaration wins; sender then recipient; rewriting of enclosing scopes first). Non-trivial: distinct accepted configurations")
+	r.Rule("configurations generated from the directive grammar (source / source_in / default_source, destination / destination_in / default_destination with 1-2 clauses from 8 rule sets incl. case, NFD, A-label and upper-case A-label spellings and duplicates, reject with 2 codes, deliver_to with 1-2 targets, global / source / destination modify with 1->1, 1->2 and chained 1->2->3 recipient rewriting, reroute with a nested pipeline), each loaded by the real msgpipeline.New and driven with every envelope of 10 senders x 11 recipients (spelling variants, null sender, postmaster); ill-formed shapes (handling directive next to rules, missing default, reject+deliver_to, empty block) must be refused at load; oracle: independent interpreter of docs/reference/smtp-pipeline.md (tables, then full address, then domain, then default; first declaration wins; sender then recipient; rewriting of enclosing scopes first). Non-trivial: distinct accepted configurations")
 	if rp := r.Replay(); rp != nil {
 		var c c04Case
 		if json.Unmarshal(rp, &c) != nil || c.Cfg == nil {
@@ -592,6 +592,8 @@ func TestVerifC04(t *testing.T) {
 	// source-level and global recipient rewriting in front of destination selection
 	rw1 := map[string][]string{"r2@dest.example": {"r1@dest.example"}}
 	rw2 := map[string][]string{"x@unrelated.example": {"r1@dest.example", "r2@пример.рф"}}
+	rw3 := map[string][]string{"r1@dest.example": {"r2@dest.example", "alias@dest.example"}}
+	rw4 := map[string][]string{"r2@dest.example": {"x@unrelated.example", "alias@dest.example"}}
 	for i, d := range dests {
 		if i%3 != 0 && !vx.Thorough() {
 			continue
@@ -603,6 +605,19 @@ func TestVerifC04(t *testing.T) {
 		d2 := *d
 		d2.Rewrite = rw2
 		do(&c04Cfg{Only: &d2, Rewrite: rw1})
+		// chained expansions: the global rewriting yields two addresses and the source-level
+		// rewriting expands the first of them again (and the other way round)
+		d3 := *d
+		d3.Rewrite = rw3
+		do(&c04Cfg{Only: &d3, Rewrite: rw2})
+		d4 := *d
+		d4.Rewrite = rw2
+		do(&c04Cfg{Only: &d4, Rewrite: rw4})
+		// the same with the second rewriting inside source blocks (a modify next to the
+		// destination rules of a pipeline without source rules is a second global modifier)
+		do(&c04Cfg{Rewrite: rw2, Clauses: []c04Clause{{Rules: []string{"sender.example"}, Body: &d3}}, Default: &d1})
+		do(&c04Cfg{Rewrite: rw4, Clauses: []c04Clause{{Rules: []string{"s1@sender.example"}, Body: &d4}}, Default: &d3})
+		do(&c04Cfg{Rewrite: rw1, Clauses: []c04Clause{{Rules: []string{"sender.example"}, Body: &d2}}, Default: d})
 	}
 	// source level
 	srcRuleSets := [][]string{{"sender.xn--p1ai"}, {"s1@sender.example"}, {"sender.example"}, {"S1@SENDER.EXAMPLE"}, {"xn--e1afmkfd.xn--p1ai"}, {"s1@пример.рф", "sender.example"}, {"ś@sender.example"}}
